@@ -29,6 +29,7 @@ static Case gen_case ()
 	c.seti ("n", *rc::gen::weightedOneOf<long long> ({ { 3, rangeOf<long long> (1, 40) }, { 3, rangeOf<long long> (1, maxN) }, { 1, rc::gen::element<long long> (2047, 2048, 2049, 4096, 1024) } })) ;
 	c.seti ("seed", (long long) *seedGen ()) ;
 	c.seti ("pseed", (long long) *seedGen ()) ;
+	c.seti ("sessions", *rangeOf<int> (0, 3) == 0 ? 2 : 1) ;
 	c.set ("t", stype_name [*rangeOf<int> (0, 3)]) ;
 	c.seti ("plant", *rangeOf<int> (0, 7)) ;	// where the maximum sits: 0 first frame, 1 last frame, 2 call boundary, 3 tie within call, 4 tie across calls, 5 tie across channels, 6 all zero, 7 random
 	c.seti ("neg", *rangeOf<int> (0, 1)) ;
@@ -79,8 +80,18 @@ static Result run_peak (const Case &c)
 	MemFile m ; SNDFILE *f = open_write_mem (m, s) ; if (!f) return fail ("open_write_failed", sf_strerror (nullptr)) ;
 	if (maj == SF_FORMAT_RF64) sf_command (f, SFC_SET_ADD_PEAK_CHUNK, nullptr, SF_TRUE) ;
 	long long done = 0 ;
+	// two sessions: the file is closed after some of the calls, re-opened read/write and the rest is appended - the PEAK data of the
+	// finished file still describes everything that was written
+	size_t split_at = (c.geti ("sessions", 1) == 2 && part.size () > 1) ? 1 + (size_t) pr.below (part.size () - 1) : 0 ; size_t calls = 0 ; bool two = false ;
 	for (long long p : part)
-	{	long long fr = p < 0 ? -p : p ; Block b ((size_t) fr * ch * ts) ; memcpy (b.p, src.p + (size_t) done * ch * ts, b.n) ;
+	{	if (split_at && calls ++ == split_at)
+		{	if (sf_close (f) != 0) return fail ("close_failed", "first session") ;
+			SF_INFO i2 ; memset (&i2, 0, sizeof (i2)) ; f = open_mem (m, SFM_RDWR, &i2) ; if (!f) return fail ("reopen_rdwr_failed", sf_strerror (nullptr)) ;
+			if (i2.frames != done) { sf_close (f) ; return fail ("reopen_rdwr_frames", std::to_string ((long long) i2.frames) + " written " + std::to_string (done)) ; }
+			if (sf_seek (f, 0, SEEK_END | SFM_WRITE) != done) { sf_close (f) ; return fail ("reopen_rdwr_seek_end", "") ; }
+			two = true ;
+		}
+		long long fr = p < 0 ? -p : p ; Block b ((size_t) fr * ch * ts) ; memcpy (b.p, src.p + (size_t) done * ch * ts, b.n) ;
 		sf_count_t w = p < 0 ? sf_write_t (f, T, b.p, fr * ch) : sf_writef_t (f, T, b.p, fr) ;
 		if (w != (p < 0 ? fr * ch : fr)) { sf_close (f) ; return fail ("short_write", std::to_string ((long long) w)) ; }
 		done += fr ;
@@ -91,7 +102,7 @@ static Result run_peak (const Case &c)
 	}
 	if (sf_close (f) != 0) return fail ("close_failed", "") ;
 	r.dhash = fnv_str (c.str ()) ; r.nontrivial = ch >= 2 && (plant == 2 || plant == 3 || plant == 4 || plant == 5) ;
-	r.classes = { "kind:peak", std::string ("container:") + major_name (s.format), std::string ("codec:") + codec_of (s.format)->name, "plant:" + std::to_string (plant), std::string ("t:") + c.gets ("t"), std::string ("calls:") + (part.size () > 1 ? "many" : "1") } ;
+	r.classes = { "kind:peak", std::string ("container:") + major_name (s.format), std::string ("codec:") + codec_of (s.format)->name, "plant:" + std::to_string (plant), std::string ("t:") + c.gets ("t"), std::string ("calls:") + (part.size () > 1 ? "many" : "1"), std::string ("sessions:") + (two ? "2" : "1") } ;
 	// independent look at the PEAK chunk
 	bool found_chunk = false ;
 	if (maj != SF_FORMAT_CAF)
